@@ -366,13 +366,14 @@ Diff(a, b) == [f \in {f \in DOMAIN a : a[f] # b[f]} |-> b[f]]
 \* cc: what is written (rendered by the driver); ee: the options in force, which decide the entry.
 \* The documentation says ee = cc; they differ only under a wrong reading (section 4).
 CaseOutE(cc, ee) ==
+    LET t == Expect(ee, "toml") IN
     [kind |-> cc.kind, v1 |-> cc.v1, v2 |-> cc.v2, v3 |-> cc.v3, nd |-> cc.nd,
      params |-> Params(cc),
      opts |-> {[scope |-> o.scope, name |-> o.name, ty |-> OptType(cc, o), text |-> OptText(cc, o)] : o \in cc.opts},
      forms |-> Forms(cc),
-     toml |-> Expect(ee, "toml"),
-     initdiff |-> Diff(Expect(ee, "toml"), Expect(ee, "init")),    \* fields where the init-command entry differs
-     cmddiff |-> Diff(Expect(ee, "toml"), Expect(ee, "cmd"))]
+     toml |-> t,
+     initdiff |-> Diff(t, Expect(ee, "init")),    \* fields where the init-command entry differs
+     cmddiff |-> Diff(t, Expect(ee, "cmd"))]
 CaseOut(cc) == CaseOutE(cc, cc)
 
 (***************************************************************************)
@@ -535,7 +536,8 @@ MinI(a, b) == IF a < b THEN a ELSE b
 RandEntries(b) ==
     LET U == Universe(b)
         n == IF Cardinality(U) <= RandOpts THEN (Cardinality(U) + 1) \div 2 ELSE RandOpts
-    IN IF U = {} THEN {b} ELSE {[b EXCEPT !.opts = Repair(S)] : S \in RandomSetOfSubsets(RandK, n, U)}
+    IN {[b EXCEPT !.opts = Repair(S)] : S \in IF Cardinality(U) <= 3 THEN SUBSET U       \* black, rewriter: all
+                                               ELSE RandomSetOfSubsets(RandK, n, U)}
 RandListsOf(pool, n) ==
     LET all == [1..n -> pool]
     IN {[p \in 1..n |-> Retag(f[p], p)] : f \in RandomSubset(MinI(RandN, Cardinality(all)), all)}
